@@ -20,6 +20,25 @@ unsigned short     nondet_ushort(void);
 unsigned long long nondet_u64(void);
 size_t             nondet_size(void);
 _Bool              nondet_bool(void);
+/* Every draw goes through a wrapper with a body, so that each one shows up in CBMC's trace as an
+ * assignment to the local `v` inside a function named v_nd_* (a bare `x = nondet_int();` leaves no
+ * identifiable step). The driver replays these steps, in order, natively. */
+#ifndef VERIF_REPLAY_RT
+static inline int                v_nd_int(void)    { int v = nondet_int(); return v; }
+static inline unsigned           v_nd_uint(void)   { unsigned v = nondet_uint(); return v; }
+static inline unsigned char      v_nd_uchar(void)  { unsigned char v = nondet_uchar(); return v; }
+static inline unsigned short     v_nd_ushort(void) { unsigned short v = nondet_ushort(); return v; }
+static inline unsigned long long v_nd_u64(void)    { unsigned long long v = nondet_u64(); return v; }
+static inline size_t             v_nd_size(void)   { size_t v = nondet_size(); return v; }
+static inline _Bool              v_nd_bool(void)   { _Bool v = nondet_bool(); return v; }
+#define nondet_int    v_nd_int
+#define nondet_uint   v_nd_uint
+#define nondet_uchar  v_nd_uchar
+#define nondet_ushort v_nd_ushort
+#define nondet_u64    v_nd_u64
+#define nondet_size   v_nd_size
+#define nondet_bool   v_nd_bool
+#endif
 
 #ifdef VERIF_CBMC
 #  define VCHECK(c)      __CPROVER_assert((c), "VCHECK: " #c)
